@@ -187,6 +187,35 @@ def build(tier="quick", seed=0):
         pack.add(Obligation(name, lambda tier, name=name, t=t, cond=cond: prove_paths(name, th_range(t, cond), lambda p: (p.value[0].startswith("raised") and p.value[1] == 0, f"{p.value[0]}, {p.value[1]} record(s) in the container"), lambda m_, p: {"x": model_value(m_, x)}),
                             replay=lambda w, t=t: {"call": "c19_refuse", "args": {"ftype": t, "value": w.get("x") if isinstance(w.get("x"), int) else 2**70}}, functions=FU))
 
+    def th_carry_on(t, cond, pos):
+        """an accepted record, a record refused at field number `pos`, an accepted record: the container must hold exactly the two accepted records"""
+        def th():
+            D = it.call(RD, ["c19/t", [("string", "s"), (t, "x")] if pos == 1 else [(t, "x"), ("string", "s")]], {})
+            it.assume(cond)
+            fp = AbsFile(it, mode="wb")
+            w = it.call(av.g["AvroWriter"], [fp], {})
+            it.call(it.getattr_(w, "write"), [it.call(D, [], {"s": "first", "x": 1})], {})
+            try:
+                it.call(it.getattr_(w, "write"), [it.call(D, [], {"s": "refused", "x": SInt(x)})], {})
+                outcome = "written"
+            except PyRaise as e:
+                outcome = "raised"
+            it.call(it.getattr_(w, "write"), [it.call(D, [], {"s": "third", "x": 3})], {})
+            it.call(it.getattr_(w, "close"), [], {})
+            try:
+                rd = it.call(av.g["AvroReader"], [AbsFile(it, fp.content())], {})
+                back = [(it.unbase(o.attrs["s"]), it.unbase(o.attrs["x"])) for o in it.iterate(rd)]
+            except PyRaise as e:
+                back = f"reading raised {e.cls_name}"
+            return outcome, back
+        return th
+
+    for t, cond, what in (("varint", z3.Or(x < -(2**63), x > 2**63 - 1), "outside 64 bits"), ("uint32", z3.And(x > 2**31 - 1, x <= 0xFFFFFFFF), "above the Avro int range")):
+        for pos in (0, 1):
+            name = f"C19.refuse.carry_on[{t} {what}, field {pos}]"
+            pack.add(Obligation(name, lambda tier, name=name, t=t, cond=cond, pos=pos: prove_paths(name, th_carry_on(t, cond, pos), lambda p: (p.value == ("raised", [("first", 1), ("third", 3)]), f"refused record between two accepted ones: {p.value[0]}, read back {p.value[1]}"), lambda m_, p: {"x": model_value(m_, x)}),
+                                replay=lambda w, t=t, pos=pos: {"call": "c19_carry_on", "args": {"ftype": t, "pos": pos, "value": w.get("x") if isinstance(w.get("x"), int) else 2**70 if t == "varint" else 2**31}}, functions=FU))
+
     def th_mixed(same_name):
         def th():
             A = it.call(RD, ["c19/a", [("varint", "n")]], {})
